@@ -469,6 +469,17 @@ def run(prog, rep, tier, repo):
             for cmp_, v_false in _bool_leaves(prog, r_, True, 0, hc):
                 if cmp_ in cmps and tag(cmp_) == 'bin' and cmp_[1] in ('Lt', 'Le', 'Gt', 'Ge') and v_false is True:
                     nan_pass.append(cmp_)
+        # the same through return sites: `if change >= tol { return false; } true` -- the site that answers "converged" is reached when the
+        # ordered comparison is false
+        for d_ in hc._defs.get(0, []):
+            if d_[0] != 'assign':
+                continue
+            v_ = hc.rvalue_term(d_[3], d_[1])
+            if not (tag(v_) == 'const' and v_[2] is True):
+                continue
+            for cn_, vv_ in hc.guards().get(d_[1], []):
+                if cn_ in cmps and vv_ is False:
+                    nan_pass.append(cn_)
         if nan_pass:
             rep.viol('convergence-magnitude', key, 'convergence is concluded from `%s` being false: a NaN change (overflowed or undefined deviance) makes every ordered '
                      'comparison false and therefore counts as converged, so fit() reports success instead of an error' % show(nan_pass[0])[:80], site_of(hc.body))
